@@ -43,6 +43,20 @@ CLAIMED = {
                   "decoder, and TLC checks purity, the law on the decoded chunks, the real apply result and their agreement.",
              note="Trusts TLC, gen/zipatch.py's decoder, the shim's tree snapshot.",
              ref="5 C04"),
+ "C01": dict(cat="model_checking", tech="TLC model checking of the GameData handle (disk, memo, reply) + transition-cover replay + TLC trace validation with the specification's own path hashing",
+             text="SqPack.tla defines path resolution, keys and the reference answers; MC_SqPack explores every query history of <= 3 calls over 913 "
+                  "layouts with the implementation-shaped memoised search and checks AnswerIsReference, HistoryFree, CaseFree, FallbackToBase. One history "
+                  "per transition of that model and stratified random installations are written to disk by an independent SqPack writer, queried "
+                  "through the real GameData, and TLC recomputes category, repository, file, JAMCRC key, entry and location for every answer.",
+             note="Trusts TLC, gen/sqpack.py (layout recalled from public docs), the shim; index-type position unverifiable offline (written at both candidates).",
+             ref="5 C01"),
+ "C02": dict(cat="model_checking", tech="TLC check of the reassembly laws (incl. model header) and inflate lifecycle machine + TLC trace validation of real extractions in a run-length payload algebra",
+             text="The data side of SqPack.tla defines extraction per entry kind over an abstract payload algebra; TLC checks HeaderDescribesOutput on all 6561 "
+                  "model block-count vectors and the block-reader lifecycle (no live inflate stream on return). Real extractions (standard/texture/model, "
+                  "raw/stored/fixed/dynamic blocks, every payload length 1..300, class lengths to 16000, up to 70 blocks) via read_from_offset and "
+                  "GameData::extract are compared by TLC with Extract(descriptor).",
+             note="Trusts TLC, gen/sqpack.py, Python zlib for building inputs; inflate correctness itself is out of scope.",
+             ref="5 C02"),
 }
 REASON_PENDING = "check not built yet in this session (see DESIGN.md section 5); will be claimed when its trace specification exists"
 
